@@ -47,17 +47,17 @@ theorem remove_refines_map (hash : Key → Nat) (t : Mixed) (inv : Inv hash t) (
   obtain ⟨t', e, i, a, p⟩ := remove_spec hash t inv k
   exact ⟨t', e, i, fun k' => by rw [a k']; rfl, p⟩
 
-/-- `Table.Reset` with a key in normal form: assigns iff the key is present (this is what `SetIndex`
-    relies on before consulting `__newindex`) -/
-theorem reset_refines_map_partial (hash : Key → Nat) (t : Mixed) (inv : Inv hash t) (k : Key) (hk : k.norm = k) (v : Val) :
-    ∃ t', reset hash t k v = some (t', (abs t k).isSome) ∧ Inv hash t' ∧
-      (∀ k', abs t' k' = ((abs t).reset k (some v)).1 k') ∧ SamePositions t t' := by
-  obtain ⟨t', e, i, a, p⟩ := reset_spec hash t inv k hk v
+/-- `Table.Reset`: assigns iff the (normalised) key is present — this is what `SetIndex` relies on
+    before consulting `__newindex` — and keeps every position -/
+theorem reset_refines_map (hash : Key → Nat) (t : Mixed) (inv : Inv hash t) (k : Key) (v : Val) :
+    ∃ t', reset hash t k v = some (t', (abs t k.norm).isSome) ∧ Inv hash t' ∧
+      (∀ k', abs t' k' = ((abs t).reset k.norm (some v)).1 k') ∧ SamePositions t t' := by
+  obtain ⟨t', e, i, a, p⟩ := reset_spec hash t inv k v
   refine ⟨t', e, i, ?_, p⟩
   intro k'
   rw [a k']
   unfold Map.reset
-  by_cases hs : (abs t k).isSome = true
+  by_cases hs : (abs t k.norm).isSome = true
   · simp [hs, Map.update]
   · simp [hs]
 
@@ -77,9 +77,7 @@ theorem len_is_border (hash : Key → Nat) (t : Mixed) (inv : Inv hash t) :
   hashed-mode cases of `insertNewKeyValue` with chain relocation, `hashTable.grow`/`cleanup` as
   repeated insertion into an empty table, and the array-migration branch of `mixedTable.grow`
   (including: `calculateArraySize` only ever asks for a power of two that makes at least one key
-  leave the hash part, so `cleanup` always leaves a free slot).  The only restriction left is the one
-  forced by a defect of the code: `Table.Reset` with an integer-valued float key (see
-  `reset_float_key_counterexample`). -/
+  leave the hash part, so `cleanup` always leaves a free slot). -/
 
 /-- `insertNewKeyValue` in linear mode: the new key goes to `nextFree`, `updateNextFree` finds the
     next highest empty slot, `HashInv` is kept and exactly the new binding is added -/
@@ -117,11 +115,14 @@ theorem grow_keeps_map (hash : Key → Nat) (t : Mixed) (inv : Inv hash t) :
   let ⟨t', e, i, a, f, _⟩ := grow_spec hash (hashedInsertOK hash) (arrayMigrationOK hash) t inv
   ⟨t', e, i, a, f⟩
 
-/-- `inv_step` for `t[k] = v`, v not nil: no panic, `Inv` kept, map updated at the normalised key -/
+/-- `inv_step` for `t[k] = v`, v not nil: no panic, `Inv` kept, map updated at the normalised key;
+    and when the field exists already no key changes its position (no growth, also when the hash part
+    is full) -/
 theorem insert_refines_map (hash : Key → Nat) (t : Mixed) (inv : Inv hash t) (k : Key) (v : Val) :
-    ∃ t', insert hash t k v = some t' ∧ Inv hash t' ∧ ∀ k', abs t' k' = (abs t).update k.norm (some v) k' := by
-  obtain ⟨t', e, i, a⟩ := insert_spec hash (hashedInsertOK hash) (arrayMigrationOK hash) t inv k v
-  exact ⟨t', e, i, fun k' => by rw [a k']; rfl⟩
+    ∃ t', insert hash t k v = some t' ∧ Inv hash t' ∧ (∀ k', abs t' k' = (abs t).update k.norm (some v) k') ∧
+      ((abs t k.norm).isSome = true → SamePositions t t') := by
+  obtain ⟨t', e, i, a, sp⟩ := insert_spec hash (hashedInsertOK hash) (arrayMigrationOK hash) t inv k v
+  exact ⟨t', e, i, fun k' => by rw [a k']; rfl, sp⟩
 
 /-- `inv_step`: every mutating operation of `runtime.Table` (Set / Reset, any key, nil or not) keeps
     the invariant and does not panic or loop -/
@@ -134,42 +135,31 @@ theorem inv_step (hash : Key → Nat) (t : Mixed) (inv : Inv hash t) (op : Op) :
 theorem inv_reachable (hash : Key → Nat) (ops : List Op) : ∃ t, run hash Mixed.init ops = some t ∧ Inv hash t :=
   run_inv hash (hashedInsertOK hash) (arrayMigrationOK hash) ops Mixed.init (inv_init hash)
 
-/-- `refines_map`: after any history the table denotes what the manual says — for every key the value
-    most recently assigned to an equal key after normalisation, else nil.  Partial only in that
-    `Reset` with a non-nil value is restricted to keys in normal form (`Op.normalReset`): for an
-    integer-valued float key the code is wrong, see `reset_float_key_counterexample`. -/
-theorem refines_map_partial (hash : Key → Nat) (ops : List Op) (hops : ∀ op ∈ ops, op.normalReset) :
+/-- `refines_map`: after any history of Set/Reset operations (any keys, nil or not) the table denotes
+    what the manual says — `t[k]` is the value most recently assigned to a key equal to `k` after
+    normalisation (`1.0` ≡ `1`, `2^53` float ≡ int, `-0.0` ≡ `0`), else nil -/
+theorem refines_map (hash : Key → Nat) (ops : List Op) :
     ∃ t, run hash Mixed.init ops = some t ∧ Inv hash t ∧
       ∀ k, get hash t k = some (specRun Map.empty ops k.norm) := by
-  obtain ⟨t, e, i, a⟩ := run_refines hash (hashedInsertOK hash) (arrayMigrationOK hash) ops hops Mixed.init (inv_init hash)
+  obtain ⟨t, e, i, a⟩ := run_refines hash (hashedInsertOK hash) (arrayMigrationOK hash) ops Mixed.init (inv_init hash)
   refine ⟨t, e, i, fun k => ?_⟩
   rw [get_refines hash t i k, a k.norm]
   have : abs Mixed.init = Map.empty := funext abs_init
   rw [this]
 
-/-- `refines_map` for histories of `Table.Set` (`t[k] = v`, `rawset`, v nil or not): full strength -/
-theorem refines_map_set (hash : Key → Nat) (kvs : List (Key × Option Val)) :
-    ∃ t, run hash Mixed.init (kvs.map fun kv => Op.set kv.1 kv.2) = some t ∧ Inv hash t ∧
-      ∀ k, get hash t k = some (specRun Map.empty (kvs.map fun kv => Op.set kv.1 kv.2) k.norm) :=
-  refines_map_partial hash _ (by
-    intro op hop
-    obtain ⟨kv, _, e⟩ := List.mem_map.1 hop
-    rw [← e]; trivial)
-
 /-! ### traversal -/
 
 /-- `mixedTable.next` returns the first live position after the position of the key, on the flat
-    view (array cells, then hash slots) — when neither of the two defects of `next` is in play -/
-theorem next_is_first_live_after_partial (hash : Key → Nat) (t : Mixed) (inv : Inv hash t) (k : Option Key)
-    (hs : Safe t k) : next hash t k = some (flatNext (flat t) (k.map Key.norm)) :=
-  next_refines hash t inv k hs
+    view (array cells, then hash slots); "invalid key" exactly when the key has no position -/
+theorem next_is_first_live_after (hash : Key → Nat) (t : Mixed) (inv : Inv hash t) (k : Option Key) :
+    next hash t k = some (flatNext (flat t) (k.map Key.norm)) :=
+  next_refines hash t inv k
 
-/-- `traversal_exactly_once`: a `next` traversal from nil during which the table only evolves by
-    `remove` / `Reset` (existing fields are cleared or assigned) returns pairwise different keys,
-    returns every key that is present at every call, and returns only bindings present at the time.
-    Partial: `Trav` demands `Safe` at every call (no `next(t, 0)` on a table with an array part, no
-    cursor in the array range above `array.len`) — see the two counterexamples below. -/
-theorem traversal_exactly_once_partial (hash : Key → Nat) (t : Mixed) (inv : Inv hash t) (states : List Mixed)
+/-- `traversal_exactly_once`: a `next` traversal from nil during which existing fields are cleared
+    (`t[k] = nil`) or assigned — through `Table.Reset` or through `Table.Set` / `rawset`, also while the
+    hash part is full — returns pairwise different keys, returns every key that is present at every
+    call, and returns only bindings present at the time of the call -/
+theorem traversal_exactly_once (hash : Key → Nat) (t : Mixed) (inv : Inv hash t) (states : List Mixed)
     (visited : List (Key × Val)) (tr : Trav hash t none states visited) :
     (visited.map (·.1)).Nodup ∧
     (∀ kk, (∀ st ∈ states, (abs st kk).isSome = true) → kk ∈ visited.map (·.1)) ∧
@@ -177,20 +167,20 @@ theorem traversal_exactly_once_partial (hash : Key → Nat) (t : Mixed) (inv : I
   obtain ⟨a, b⟩ := trav_complete_nodup hash t inv states visited tr
   exact ⟨a, b, (trav_visited_present hash t none states visited tr inv).2⟩
 
-/-- `next k` stays defined for a key returned earlier, also after it has been cleared (tombstones) -/
-theorem next_defined_after_clear_partial (hash : Key → Nat) (t t' : Mixed) (inv : Inv hash t) (k : Option Key)
-    (k' : Key) (v : Val) (hsafe : Safe t k) (hn : next hash t k = some (.item k' v)) (ev : Evolves hash t t')
-    (hsafe' : Safe t' (some k')) : ∃ r, next hash t' (some k') = some r ∧ r ≠ .invalid :=
-  next_defined_after_update hash t t' inv k k' v hsafe hn ev hsafe'
+/-- `next k` stays defined for a key returned earlier, also after it has been cleared (tombstones in
+    the hash part; positions above `array.len` in the array part) -/
+theorem next_defined_after_clear (hash : Key → Nat) (t t' : Mixed) (inv : Inv hash t) (k : Option Key)
+    (k' : Key) (v : Val) (hn : next hash t k = some (.item k' v)) (ev : Evolves hash t t') :
+    ∃ r, next hash t' (some k') = some r ∧ r ≠ .invalid :=
+  next_defined_after_update hash t t' inv k k' v hn ev
 
 /-! ### `__newindex` / `__index` -/
 
-/-- `SetIndex` consults `__newindex` iff the raw key is absent (keys in normal form) -/
-theorem newindex_only_when_absent_partial (hash : Key → Nat) (t : Mixed) (inv : Inv hash t) (k : Key)
-    (hk : k.norm = k) (v : Val) :
-    ∃ r, Model.Index.setIndexStep hash t k (some v) = some r ∧ (r = .consult ↔ abs t k = none) := by
-  obtain ⟨t', e, _, _, _⟩ := reset_spec hash t inv k hk v
-  cases hv : abs t k with
+/-- `newindex_only_when_absent`: `SetIndex` consults `__newindex` iff the raw key is absent -/
+theorem newindex_only_when_absent (hash : Key → Nat) (t : Mixed) (inv : Inv hash t) (k : Key) (v : Val) :
+    ∃ r, Model.Index.setIndexStep hash t k (some v) = some r ∧ (r = .consult ↔ abs t k.norm = none) := by
+  obtain ⟨t', e, _, _, _⟩ := reset_spec hash t inv k v
+  cases hv : abs t k.norm with
   | none => exact ⟨.consult, by simp [Model.Index.setIndexStep, treset, e, hv], by simp⟩
   | some x => exact ⟨.done t', by simp [Model.Index.setIndexStep, treset, e, hv], by simp⟩
 
